@@ -21,7 +21,9 @@ class C04(FprCheck):
             "mixing the call forms run(conf), run(conf_id, mol), run(conf_obj, mol), run(mol=mol), with repeated identical "
             "runs and queries at several levels / bits between runs; every run is compared with the model of the object and "
             "with a fresh Fingerprinter; mutable default arguments are inspected after every history; thorough tier adds "
-            "PYTHONHASHSEED values, threads and worker processes. Non-trivial: history that revisits a molecule or conformer; "
+            "PYTHONHASHSEED values, threads and worker processes; both tiers also drive the entry point fprints_dict_from_mol through "
+            "successive calls with the molecule object edited in place between calls (vs fresh fingerprinters) and from 4 threads "
+            "with a 1 us switch interval (vs serial). Non-trivial: history that revisits a molecule or conformer; "
             "distinct by history.")
     assumptions = FprCheck.assumptions + ["thread / process interleavings are sampled, not enumerated (partial: the theorems carry the object's logic, not RDKit/NumPy thread safety)"]
 
@@ -60,6 +62,19 @@ class C04(FprCheck):
                 runs.append(r)
                 last = r
             yield {"t": "hist", "pool": pool, "opts": o, "runs": runs}
+        # the entry point every pipeline function goes through: successive calls in one process, the molecule object
+        # edited in place between calls (isotope label, formal charge), other molecules in between; plus two threads
+        for _ in range(8 if self.tier == "quick" else 60):
+            o = MG.gen_opts(rng)
+            pool = [rng.choice(refs) for _ in range(2)]
+            steps = []
+            for _ in range(rng.randint(3, 6)):
+                steps.append({"mol": rng.randrange(2), "edit": rng.choice([None, None, "isotope", "charge"]), "atom": rng.randrange(64),
+                              "first": rng.choice([1, 2, -1])})
+            self.count("entry")
+            yield {"t": "entry", "pool": pool, "opts": o, "steps": steps}
+        for _ in range(1 if self.tier == "quick" else 4):
+            yield {"t": "entry-threads", "sample": rng.randrange(10 ** 6), "n": 10 if self.tier == "quick" else 40}
         if self.tier == "thorough":
             for hs in ("0", "1", "12345"):
                 yield {"t": "hashseed", "seed": hs, "sample": rng.randrange(10 ** 6)}
@@ -142,6 +157,56 @@ class C04(FprCheck):
             if self._defaults() != defaults_before:
                 return {"key": "mutable-default-mutated", "what": "a mutable default argument changed: %s" % self._defaults()}
             return None
+        if case["t"] == "entry":
+            from e3fp.fingerprint.generate import fprints_dict_from_mol
+            from harness.fpgen import dump_fp
+            mols = [MG.load_ref(r) for r in case["pool"]]
+            o = case["opts"]
+            for k, st in enumerate(case["steps"]):
+                mol = mols[st["mol"]]
+                heavy = [a for a in mol.GetAtoms() if a.GetAtomicNum() > 1]
+                if st["edit"] and heavy:
+                    a = heavy[st["atom"] % len(heavy)]
+                    if st["edit"] == "isotope":
+                        a.SetIsotope(0 if a.GetIsotope() else 13 + a.GetAtomicNum())
+                    else:
+                        a.SetFormalCharge(0 if a.GetFormalCharge() else 1)
+                if not MG.in_domain(mol, o):
+                    continue
+                try:
+                    d = fprints_dict_from_mol(mol, first=st["first"], **o)
+                    got = [dump_fp(f) for f in d[o["level"]]]
+                except Exception as e:  # noqa: BLE001
+                    return {"key": "entry-raises:" + type(e).__name__, "what": "step %d: fprints_dict_from_mol raised %r" % (k, e)}
+                n = mol.GetNumConformers() if st["first"] == -1 else min(st["first"], mol.GetNumConformers())
+                want = []
+                for ci in range(n):
+                    fpr = MG.make_fprinter(o)
+                    fpr.run(ci, mol)
+                    want.append(dump_fp(fpr.get_fingerprint_at_level(level=o["level"])))
+                if got != want:
+                    return {"key": "entry-history-dependent" + (":after-edit" if st["edit"] else ""),
+                            "what": "step %d: fprints_dict_from_mol on molecule %d (%s) differs from fresh fingerprinters on the same "
+                                    "molecule object" % (k, st["mol"], "edited in place: %s" % st["edit"] if st["edit"] else "unedited"),
+                            "step": k}
+            return None
+        if case["t"] == "entry-threads":
+            from concurrent.futures import ThreadPoolExecutor
+            jobs = sample_jobs(case["sample"], case["n"])
+            jobs = [(ref, ci, jobs[0][2]) for ref, ci, _o in jobs]     # one option set for the whole batch, as a batch run has
+            serial = [entry_result(j) for j in jobs]
+            old = sys.getswitchinterval()
+            sys.setswitchinterval(1e-6)
+            try:
+                with ThreadPoolExecutor(4) as ex:
+                    par = list(ex.map(entry_result, jobs))
+            finally:
+                sys.setswitchinterval(old)
+            bad = [i for i, (x, y) in enumerate(zip(serial, par)) if x != y]
+            if bad:
+                return {"key": "entry-concurrency-dependent:threads",
+                        "what": "%d of %d results of fprints_dict_from_mol computed in 4 threads differ from the serial results" % (len(bad), len(jobs))}
+            return None
         if case["t"] == "hashseed":
             outs = []
             for hs in ("0", case["seed"]):
@@ -196,6 +261,17 @@ def sample_jobs(seed, n):
     rng = random.Random(seed)
     refs = MG.all_refs()
     return [(rng.choice(refs), rng.randrange(2), MG.gen_opts(rng)) for _ in range(n)]
+
+
+def entry_result(job):
+    from e3fp.fingerprint.generate import fprints_dict_from_mol
+    from harness.fpgen import dump_fp
+    ref, _ci, o = job
+    mol = MG.load_ref(ref)
+    if not MG.in_domain(mol, o):
+        return "out-of-domain"
+    d = fprints_dict_from_mol(mol, first=2, **o)
+    return vlib.canon([dump_fp(f) for f in d.get(o["level"], [])])
 
 
 def job_result(job):
